@@ -241,7 +241,26 @@ impl GeneralTerm {
                     }
                 };
                 if conflict {
-                    GeneralTerm::SymbolicTerm(SymbolicTerm::Symbol(format!("{s}__s")))
+                    // The new name must not be a predicate name itself: it gets one more `__s`
+                    // than any predicate name ends with (a single one in the usual case).
+                    let suffixes = possible_conflicts
+                        .iter()
+                        .map(|p| {
+                            let mut name = p.symbol.as_str();
+                            let mut count = 0;
+                            while let Some(shorter) = name.strip_suffix("__s") {
+                                name = shorter;
+                                count += 1;
+                            }
+                            count
+                        })
+                        .max()
+                        .unwrap_or(0)
+                        + 1;
+                    GeneralTerm::SymbolicTerm(SymbolicTerm::Symbol(format!(
+                        "{s}{}",
+                        "__s".repeat(suffixes)
+                    )))
                 } else {
                     GeneralTerm::SymbolicTerm(SymbolicTerm::Symbol(s))
                 }
